@@ -9,7 +9,7 @@ only); the primitive volumes are arbitrary functions of the node data. -/
 namespace RefineVolume
 open Gen.Algo Trav Py Vol C14 RefineTravFront
 
-variable (volSphere : Int → ℝ) (volFrustum : Int × Int → ℝ) (volSF : Int → Int × Int → ℝ) (volPairs : Int → List (Int × Int) → ℝ) (volMC : ℝ)
+variable (volSphere : Int → ℝ) (volFrustum : Int × Int → ℝ) (volSF : Int → Int × Int → ℝ) (volPairs : Int → List (Int × Int) → ℝ) (mcScene : List Py.Shape → ℝ)
 
 /-- the per-node ingredients of the model, from the primitive volumes: node `i` with the children `ks` (their spheres are what `leave` returned) -/
 noncomputable def terms : Int → List Int → Terms ℝ := fun i ks =>
@@ -23,7 +23,7 @@ noncomputable def terms : Int → List Int → Terms ℝ := fun i ks =>
 /-! ### the four comprehension loops of `leave` -/
 
 theorem for1_loop : ∀ (cs : List Int) (v : vol_leave.V ℝ),
-    forEach (vol_leave.for1 volSphere volFrustum volSF volPairs volMC) cs v
+    forEach (vol_leave.for1 volSphere volFrustum volSF volPairs mcScene) cs v
       = .next { v with c0_ := v.c0_ ++ cs.map (fun c => (v.n, c)), c := cs.getLast?.getD v.c } := by
   intro cs
   induction cs with
@@ -35,7 +35,7 @@ theorem for1_loop : ∀ (cs : List Int) (v : vol_leave.V ℝ),
     simp [List.getLast?_cons]
 
 theorem for2_loop : ∀ (cs : List (Int × Int)) (v : vol_leave.V ℝ),
-    forEach (vol_leave.for2 volSphere volFrustum volSF volPairs volMC) cs v
+    forEach (vol_leave.for2 volSphere volFrustum volSF volPairs mcScene) cs v
       = .next { v with c2_ := v.c2_ ++ cs.map volFrustum, fc := cs.getLast?.getD v.fc } := by
   intro cs
   induction cs with
@@ -47,7 +47,7 @@ theorem for2_loop : ∀ (cs : List (Int × Int)) (v : vol_leave.V ℝ),
     simp [List.getLast?_cons]
 
 theorem for3_loop : ∀ (cs : List (Int × Int)) (v : vol_leave.V ℝ),
-    forEach (vol_leave.for3 volSphere volFrustum volSF volPairs volMC) cs v
+    forEach (vol_leave.for3 volSphere volFrustum volSF volPairs mcScene) cs v
       = .next { v with c4_ := v.c4_ ++ cs.map (volSF v.sphere), fc := cs.getLast?.getD v.fc } := by
   intro cs
   induction cs with
@@ -59,7 +59,7 @@ theorem for3_loop : ∀ (cs : List (Int × Int)) (v : vol_leave.V ℝ),
     simp [List.getLast?_cons]
 
 theorem for4_loop : ∀ (cs : List (Int × (Int × Int))) (v : vol_leave.V ℝ),
-    forEach (vol_leave.for4 volSphere volFrustum volSF volPairs volMC) cs v
+    forEach (vol_leave.for4 volSphere volFrustum volSF volPairs mcScene) cs v
       = .next { v with c6_ := v.c6_ ++ cs.map (fun x => volSF x.1 x.2), s := (cs.getLast?.map (·.1)).getD v.s,
                        fc := (cs.getLast?.map (·.2)).getD v.fc } := by
   intro cs
@@ -81,7 +81,7 @@ theorem zip_map_pair (n : Int) (ks : List Int) (g : Int → Int × Int → ℝ) 
 level (from the primitive volumes of the node, its children's spheres and the cones between them) to the non-local `volume`, leaves `accuracy`
 alone, and returns the node's sphere -/
 theorem vol_leave_eq (acc : Nat) (vol : ℝ) (n : Int) (ks : List Int) :
-    vol_leave volSphere volFrustum volSF volPairs volMC (vol, (acc : Int)) n ks
+    vol_leave volSphere volFrustum volSF volPairs mcScene (vol, (acc : Int)) n ks
       = some ((vol + nodeVal acc (terms volSphere volFrustum volSF volPairs n ks), (acc : Int)), n) := by
   have z := zip_map_pair n ks volSF
   by_cases h2 : 2 ≤ acc
@@ -117,11 +117,11 @@ noncomputable def liftLeave : (ℝ × Int) → Int → List Int → (ℝ × Int)
 
 /-- the traversal with the wrapped closure = the model's traversal callbacks `volEnter` / `volLeave` -/
 theorem spec_vol_leave (acc : Nat) (r : Rose) (v : ℝ) :
-    spec Py.absent2 (Py.wrap2 (vol_leave volSphere volFrustum volSF volPairs volMC)) r none (some (v, (acc : Int)))
+    spec Py.absent2 (Py.wrap2 (vol_leave volSphere volFrustum volSF volPairs mcScene)) r none (some (v, (acc : Int)))
       = (some (v + sumRose (fun i ks => nodeVal acc (terms volSphere volFrustum volSF volPairs i ks)) r, (acc : Int)), r.id) := by
   rw [absent2_eq_wrapE, wrap2_eq_wrapL]
   have h1 := RefineClosures.spec_wrap_on (fun st : ℝ × Int => st.2 = (acc : Int)) (fun _ => True)
-    (fun st n pv => some (Py.absent2 st n pv)) (vol_leave volSphere volFrustum volSF volPairs volMC)
+    (fun st n pv => some (Py.absent2 st n pv)) (vol_leave volSphere volFrustum volSF volPairs mcScene)
     Py.absent2 (liftLeave volSphere volFrustum volSF volPairs)
     (fun st n pv hP _ => ⟨rfl, hP⟩)
     (fun st n ks hP _ => by
@@ -151,15 +151,17 @@ at every accuracy level other than 10 and for arbitrary primitive volumes, the c
 over all nodes of the generated per-node value, each node seeing exactly its own children -/
 theorem getVolume_refines (acc : Nat) (hacc : acc ≠ 10) (ids pids : List Int) (r : Rose) (hR : Represents r ids pids) (h0 : r.id = 0)
     (hok : Rows r ids) (F : Nat) :
-    get_volume_frustum_cone volSphere volFrustum volSF volPairs volMC (2 * r.size + F + 1) ids pids (acc : Int)
+    get_volume_frustum_cone volSphere volFrustum volSF volPairs mcScene (2 * r.size + F + 1) ids pids (acc : Int)
       = some (sumRose (fun i ks => nodeVal acc (terms volSphere volFrustum volSF volPairs i ks)) r) := by
   have hne : ¬ ((acc : Int) = 10) := by omega
   simp [get_volume_frustum_cone, get_volume_frustum_cone.body, Py.seq, Py.skip, Py.bind, hne,
     tree_traverse_l_refines _ ids pids r hR h0 hok _ F, spec_vol_leave, Py.unwrapCb, Py.finish]
 
-/-- level 10: the Monte-Carlo-only routine, whatever it returns -/
+/-- level 10, EVERY input (any table, any fuel): `_get_volume_frustum_cone` is the GENERATED Monte-Carlo-only routine `get_volume_mc_only`
+(Gen/AlgoVolMC.lean, from `_get_volume_frustum_cone_mc_only`) on the same tree with the same fuel and the same sampler — nothing else is evaluated -/
 theorem getVolume_level10 (ids pids : List Int) (fuel : Nat) :
-    get_volume_frustum_cone volSphere volFrustum volSF volPairs volMC fuel ids pids 10 = some volMC := by
-  simp [get_volume_frustum_cone, get_volume_frustum_cone.body, Py.seq, Py.finish]
+    get_volume_frustum_cone volSphere volFrustum volSF volPairs mcScene fuel ids pids 10 = get_volume_mc_only mcScene fuel ids pids := by
+  cases h : get_volume_mc_only mcScene fuel ids pids <;>
+    simp [get_volume_frustum_cone, get_volume_frustum_cone.body, Py.seq, Py.bind, Py.finish, h]
 
 end RefineVolume
